@@ -235,6 +235,9 @@ class NonBondEngine():
         """
         for mol_idx, molecule in enumerate(molecules):
             for node in molecule.nodes:
+                # molecules that are ignored are not part of the engine
+                if (mol_idx, node) not in self.nodes_to_gndx:
+                    continue
                 gndx = self.nodes_to_gndx[(mol_idx, node)]
                 molecule.nodes[node]["position"] = self.positions[gndx]
 
@@ -367,7 +370,12 @@ class NonBondEngine():
         atom_types = []
         idx = 0
         mol_count = 0
+        # the molecule index always refers to the position of the molecule in
+        # topology.molecules also if only a subset of the molecules is used
+        topology_idxs = {id(molecule): mol_idx for mol_idx, molecule
+                         in enumerate(topology.molecules)}
         for molecule in molecules:
+            mol_count = topology_idxs.get(id(molecule), mol_count)
             for node in molecule.nodes:
                 if "position" in molecule.nodes[node]:
                     # check if position is inside grid
